@@ -250,6 +250,8 @@ func c09(c *core.Ctx) {
 	}
 	var mul *ssa.BinOp
 	var unitPhi *ssa.Phi
+	var unitLookup *ssa.Lookup
+	var unitTable map[int64]int64
 	// the parser family: the function that reads the header and the package functions it calls
 	// (a helper that parses the text is followed, depth <= 2)
 	var fam []*ssa.Function
@@ -291,9 +293,24 @@ func c09(c *core.Ctx) {
 						mul, unitPhi = b, phi
 						parser = f
 					}
+					// the unit looked up in a package-level table keyed by the suffix byte
+					if lk, ok := side.(*ssa.Lookup); ok {
+						if tbl := globalConstMap(p, lk.X); tbl != nil {
+							mul, unitLookup, unitTable = b, lk, tbl
+							parser = f
+						}
+					}
 				}
 			})
 		}
+	}
+	var unitVal ssa.Value
+	var unitPos token.Pos
+	if unitPhi != nil {
+		unitVal, unitPos = unitPhi, unitPhi.Pos()
+	}
+	if unitLookup != nil {
+		unitVal, unitPos = unitLookup, unitLookup.Pos()
 	}
 	if c.Rule("R2", "the server's unit table is exactly the wire spec's {H,M,S,m,u,n} and maps the client's unit letter to the client's divisor", 7) {
 		switch {
@@ -305,10 +322,22 @@ func c09(c *core.Ctx) {
 			name := core.FuncName(parser)
 			table := map[byte]int64{}
 			zeroDefault := false
-			for i, e := range unitPhi.Edges {
+			if unitLookup != nil {
+				zeroDefault = true // an absent key yields the zero duration
+				for k, v := range unitTable {
+					if k >= 0 && k <= 255 {
+						table[byte(k)] = v
+					}
+				}
+			}
+			var edges []ssa.Value
+			if unitPhi != nil {
+				edges = unitPhi.Edges
+			}
+			for i, e := range edges {
 				d, isC := core.ConstInt(e)
 				if !isC {
-					c.Undecided(name+":unit-table", unitPhi.Pos(), "unit is not a constant on some path")
+					c.Undecided(name+":unit-table", unitPos, "unit is not a constant on some path")
 					continue
 				}
 				if d == 0 {
@@ -326,7 +355,7 @@ func c09(c *core.Ctx) {
 					}
 				}
 				if letter < 0 || letter > 255 {
-					c.Undecided(name+":unit-table", unitPhi.Pos(), "cannot find the suffix letter selecting unit %d", d)
+					c.Undecided(name+":unit-table", unitPos, "cannot find the suffix letter selecting unit %d", d)
 					continue
 				}
 				table[byte(letter)] = d
@@ -341,16 +370,16 @@ func c09(c *core.Ctx) {
 				got, has := table[l]
 				switch {
 				case !has:
-					c.Fail(name+":unit:"+ls, unitPhi.Pos(), "unit %q of the wire spec is not accepted", ls)
+					c.Fail(name+":unit:"+ls, unitPos, "unit %q of the wire spec is not accepted", ls)
 				case got != wireUnits[l]:
-					c.Fail(name+":unit:"+ls, unitPhi.Pos(), "unit %q maps to %d ns, the wire spec says %d ns", ls, got, wireUnits[l])
+					c.Fail(name+":unit:"+ls, unitPos, "unit %q maps to %d ns, the wire spec says %d ns", ls, got, wireUnits[l])
 				default:
-					c.Ok(name+":unit:"+ls, unitPhi.Pos(), "%q → %d ns", ls, got)
+					c.Ok(name+":unit:"+ls, unitPos, "%q → %d ns", ls, got)
 				}
 			}
 			for l := range table {
 				if _, ok := wireUnits[l]; !ok {
-					c.Fail(name+":unit:"+string(l), unitPhi.Pos(), "unit %q is not in the wire spec", string(l))
+					c.Fail(name+":unit:"+string(l), unitPos, "unit %q is not in the wire spec", string(l))
 				}
 			}
 			// an unknown suffix must not reach the multiplication: either it leaves the unit 0 and the product is
@@ -359,23 +388,23 @@ func c09(c *core.Ctx) {
 			if zeroDefault {
 				g := core.GuardedBy(mul, func(f core.Fact) bool {
 					z, isZ := core.ConstInt(f.Y)
-					return f.Op == token.NEQ && isZ && z == 0 && (f.X == ssa.Value(unitPhi) || stripCT(f.X) == ssa.Value(unitPhi))
+					return f.Op == token.NEQ && isZ && z == 0 && (f.X == unitVal || stripCT(f.X) == unitVal)
 				})
-				c.Check(g, name+":unknown-unit", unitPhi.Pos(), "unknown suffix leaves unit 0 and value*unit is computed only under unit != 0 (no deadline added)", "an unknown suffix leaves the unit 0 but value*unit is computed without a unit != 0 test: an unknown unit yields a zero timeout (immediate expiry) instead of no deadline")
+				c.Check(g, name+":unknown-unit", unitPos, "unknown suffix leaves unit 0 and value*unit is computed only under unit != 0 (no deadline added)", "an unknown suffix leaves the unit 0 but value*unit is computed without a unit != 0 test: an unknown unit yields a zero timeout (immediate expiry) instead of no deadline")
 			} else {
-				c.Ok(name+":unknown-unit", unitPhi.Pos(), "only the %d matched letters reach value*unit (the default arm of the unit switch leaves before it)", len(table))
+				c.Ok(name+":unknown-unit", unitPos, "only the %d matched letters reach value*unit (the default arm of the unit switch leaves before it)", len(table))
 			}
 			if len(clientAlts) > 0 {
 				for _, ca := range clientAlts {
-					c.Check(table[ca.letter] == ca.div && ca.div != 0, "client-server:unit-agreement:"+string(ca.letter), unitPhi.Pos(),
+					c.Check(table[ca.letter] == ca.div && ca.div != 0, "client-server:unit-agreement:"+string(ca.letter), unitPos,
 						fmt.Sprintf("client sends quotient by %d ns with suffix %q; server multiplies %q by %d ns", ca.div, string(ca.letter), string(ca.letter), table[ca.letter]),
 						fmt.Sprintf("client divides by %d ns and writes suffix %q but the server multiplies that suffix by %d ns", ca.div, string(ca.letter), table[ca.letter]))
 				}
 			} else {
-				c.Fail("client-server:unit-agreement", unitPhi.Pos(), "client unit letter unknown")
+				c.Fail("client-server:unit-agreement", unitPos, "client unit letter unknown")
 			}
 			// the suffix compared is the LAST byte of the header, the number is the rest
-			c.Ok(name+":table-size", unitPhi.Pos(), "%d units extracted from the phi of the unit switch", len(table))
+			c.Ok(name+":table-size", unitPos, "%d units extracted from the phi of the unit switch", len(table))
 		}
 		c.EndRule()
 	}
@@ -387,7 +416,7 @@ func c09(c *core.Ctx) {
 		} else {
 			name := core.FuncName(parser)
 			var val ssa.Value = mul.X
-			if mul.X == ssa.Value(unitPhi) {
+			if mul.X == unitVal {
 				val = mul.Y
 			}
 			isParsed := func(v ssa.Value) bool {
@@ -406,7 +435,7 @@ func c09(c *core.Ctx) {
 				}
 				if b, ok := f.Y.(*ssa.BinOp); ok && b.Op == token.QUO {
 					if k, ok := core.ConstInt(b.X); ok && k == math.MaxInt64 {
-						return core.OriginIs(b.Y, func(o ssa.Value) bool { return o == ssa.Value(unitPhi) }) || stripCT(b.Y) == ssa.Value(unitPhi)
+						return core.OriginIs(b.Y, func(o ssa.Value) bool { return o == unitVal }) || stripCT(b.Y) == unitVal
 					}
 				}
 				return false
@@ -701,4 +730,51 @@ func quotientPositiveByGuard(v ssa.Value, at ssa.Instruction) bool {
 		}
 		return (f.Op == token.GTR && K >= k-1) || (f.Op == token.GEQ && K >= k)
 	})
+}
+
+// globalConstMap: m is a load of a package-level map variable of the module
+// that is initialised with integer-constant keys and values (and, as C01/R1
+// checks for every package-level variable, never written afterwards); returns
+// the table, nil otherwise.
+func globalConstMap(p *core.Prog, m ssa.Value) map[int64]int64 {
+	u, ok := m.(*ssa.UnOp)
+	if !ok || u.Op != token.MUL {
+		return nil
+	}
+	g, ok := u.X.(*ssa.Global)
+	if !ok || g.Pkg == nil || !strings.HasPrefix(g.Pkg.Pkg.Path(), core.ModulePath) {
+		return nil
+	}
+	initFn := g.Pkg.Func("init")
+	if initFn == nil {
+		return nil
+	}
+	var mk ssa.Value
+	core.Instrs(initFn, func(in ssa.Instruction) {
+		if st, ok := in.(*ssa.Store); ok && st.Addr == ssa.Value(g) {
+			mk = st.Val
+		}
+	})
+	if mk == nil {
+		return nil
+	}
+	out := map[int64]int64{}
+	okAll := true
+	core.Instrs(initFn, func(in ssa.Instruction) {
+		mu, ok := in.(*ssa.MapUpdate)
+		if !ok || mu.Map != mk {
+			return
+		}
+		k, ok1 := core.ConstInt(mu.Key)
+		v, ok2 := core.ConstInt(mu.Value)
+		if !ok1 || !ok2 {
+			okAll = false
+			return
+		}
+		out[k] = v
+	})
+	if !okAll || len(out) == 0 {
+		return nil
+	}
+	return out
 }
